@@ -123,6 +123,10 @@ def rp1(model):
                 pass
             elif isinstance(p, ast.Call) and unparse(p.func) == 're.escape':
                 r.ok(p, 'user word enters through re.escape', nontrivial=True)
+            elif isinstance(p, ast.Call) and T.call_name(p) == 'join' and p.args \
+                    and isinstance(p.args[0], (ast.GeneratorExp, ast.ListComp)) \
+                    and isinstance(p.args[0].elt, ast.Call) and unparse(p.args[0].elt.func) == 're.escape':
+                r.ok(p, 'user words enter through re.escape, joined by the separator', nontrivial=True)
             elif isinstance(p, ast.Name):
                 s = _sep_literal(model, f, p.id)
                 if s is None:
@@ -211,7 +215,7 @@ def ck1(model):
                    'letters only, boundaries on both sides); accepted patterns are literal '
                    '(re.escape) with \\b iff they begin / end with a letter; a letter is suppressed '
                    'iff beg <= position < end for an accepted hit (strictness of every '
-                   'comparison); offset and length come from the same match', floor=4)
+                   'comparison); offset and length come from the same match', floor=3)
     f = model.func('shell.checks.create_single_letter_matches')
     lits = [n for n in ast.walk(f.node) if isinstance(n, ast.Constant) and isinstance(n.value, str)
             and '[^' in n.value and n.value.startswith(r'\b')]
@@ -237,33 +241,44 @@ def ck1(model):
     else:
         r.fail(f.node, 'accepted patterns are used as regular expressions without re.escape',
                stmt='accept patterns escaped')
-    # comparisons hit / position
-    hits = None
+    # comparisons hit / position: (beg, end) come from a loop / comprehension over 2-tuples
+    begs, ends, poss = set(), set(), set()
     for n in ast.walk(f.node):
-        if isinstance(n, ast.Assign) and isinstance(n.targets[0], ast.Name) and isinstance(n.value, ast.Call) \
-                and any(isinstance(x, ast.Tuple) and len(x.elts) == 2 and 'start' in unparse(x.elts[0])
-                        and 'end' in unparse(x.elts[1]) for x in ast.walk(n.value)):
-            hits = n.targets[0].id
-    if hits is None:
-        r.undec(f.node, 'list of accepted hits not recognised')
-        return r
-    begs, ends = {hits + '[0]'}, {hits + '[1]'}
+        tgt = None
+        if isinstance(n, ast.For):
+            tgt = n.target
+        elif isinstance(n, ast.comprehension):
+            tgt = n.target
+        if isinstance(tgt, ast.Tuple) and len(tgt.elts) == 2 and all(isinstance(x, ast.Name) for x in tgt.elts):
+            begs.add(tgt.elts[0].id)
+            ends.add(tgt.elts[1].id)
     for n in ast.walk(f.node):
-        if isinstance(n, ast.For) and unparse(n.iter) == hits and isinstance(n.target, ast.Tuple) \
-                and len(n.target.elts) == 2:
-            begs.add(unparse(n.target.elts[0]))
-            ends.add(unparse(n.target.elts[1]))
+        if isinstance(n, ast.Assign) and isinstance(n.targets[0], ast.Name) \
+                and 'start' in unparse(n.value) and isinstance(n.value, ast.Call):
+            poss.add(n.targets[0].id)
+
     def kind(e):
         t = unparse(e)
-        if t in begs or (isinstance(e, ast.Subscript) and T.is_const(e.slice, 0)
-                         and unparse(e.value).startswith(hits + '[')):
+        if isinstance(e, ast.Name) and e.id in begs:
             return 'beg'
-        if t in ends or (isinstance(e, ast.Subscript) and T.is_const(e.slice, 1)
-                         and unparse(e.value).startswith(hits + '[')):
+        if isinstance(e, ast.Name) and e.id in ends:
             return 'end'
-        if 'start' in t:
+        if isinstance(e, ast.Subscript) and isinstance(e.value, ast.Subscript):
+            if T.is_const(e.slice, 0):
+                return 'beg'
+            if T.is_const(e.slice, 1):
+                return 'end'
+        if (isinstance(e, ast.Name) and e.id in poss) or (isinstance(e, ast.Call) and T.call_name(e) == 'start'):
             return 'pos'
         return None
+    # the hit list holds (start, end) of matches of the accepted patterns
+    spans = [n for n in ast.walk(f.node) if (isinstance(n, ast.Tuple) and len(n.elts) == 2
+                                            and 'start' in unparse(n.elts[0]) and 'end' in unparse(n.elts[1]))
+             or (isinstance(n, ast.Call) and T.call_name(n) == 'span')]
+    if spans:
+        r.ok(spans[0], 'accepted hits are recorded as (start, end) spans', nontrivial=True)
+    else:
+        r.undec(f.node, 'construction of the accepted hits not recognised')
     n_cmp = 0
     for n in ast.walk(f.node):
         if not isinstance(n, ast.Compare):
@@ -273,7 +288,6 @@ def ck1(model):
             ka, kb = kind(a), kind(b)
             if {ka, kb} == {'end', 'pos'}:
                 n_cmp += 1
-                # allowed: pos < end, end > pos, end <= pos, pos >= end
                 good = (ka == 'pos' and isinstance(op, (ast.Lt, ast.GtE))) or \
                        (ka == 'end' and isinstance(op, (ast.Gt, ast.LtE)))
                 if good:
